@@ -349,6 +349,7 @@ def evaluate(ctx, case, do_kspace=False):
         cd_dec[i] = F(pp.calc_duration(seq.get_block(i)))
         if not close(cd_dec[i], stored[i], scale):
             fails.append(('calc_duration-decoded-vs-stored', {'block': i, 'calc': float(cd_dec[i]), 'stored': float(stored[i])}))
+    totals_agree(seq, 'built-object', fails)
     # 2. duration()
     total = sum(stored.values())
     dur, nblk, evcount = seq.duration()
@@ -496,6 +497,11 @@ def evaluate(ctx, case, do_kspace=False):
                                 'object_raster': foreign['block']}))
                             break
                 ctx.count('file.foreign_raster_roundtrip')
+                # a USED object (already holding other / more blocks under other numbers, decoded once) reads the file:
+                # afterwards it must be indistinguishable from a fresh object that read the same file, and all the places
+                # that derive a total must agree with each other
+                reuse_fails = reused_object_read(ctx, case, fn, s2, dname)
+                fails += reuse_fails
             except AssertionError as e:
                 fails.append(('write-asserts', {'exception': repr(e)}))
             except Exception as e:  # noqa: BLE001
@@ -517,6 +523,95 @@ def evaluate(ctx, case, do_kspace=False):
     return {'seq': seq, 'inputs': inputs, 'ids': ids, 'stored': stored, 'cd_in': cd_in, 'ds': ds, 'starts': starts, 'adc': adc,
             'rfx': rfx, 'rfr': rfr, 'wave': wave, 'wd': wd, 'cols': cols, 'total': total, 'scale': scale, 'failed': bool(fails),
             'ds_model': ds_model, 'tr': tr_results, 'evcount': [int(v) for v in evcount]}
+
+
+def totals_agree(seq, label, fails):
+    """every place of one object that derives the block list / a total duration"""
+    ev_ids, du_ids = list(seq.block_events), list(seq.block_durations)
+    if ev_ids != du_ids:
+        fails.append((label + '/block-tables-differ', {'block_events': ev_ids[:12], 'block_durations': du_ids[:12]}))
+        return False
+    d, n, _ = seq.duration()
+    tot = sum(seq.block_durations.values())
+    if n != len(du_ids) or abs(F(d) - F(tot)) > tol(F(tot)):
+        fails.append((label + '/duration()-vs-sum(block_durations)', {'duration()': [float(d), n], 'sum': float(tot), 'blocks': len(du_ids)}))
+        return False
+    return True
+
+
+def reused_object_read(ctx, case, fn, fresh, dname):
+    import pypulseq as pp
+    fails = []
+    r = ctx_rng(case)
+    opts = tg.make_opts(case['sys'])
+    used = pp.Sequence(opts)
+    nfile = len(fresh.block_events)
+    extra = r.randint(1, 4)
+    numbers = r.choice(['add', 'add', 'gapped'])
+    with warnings.catch_warnings():
+        warnings.simplefilter('ignore')
+        for k in range(nfile + extra):
+            b = tg.gen_block(r, case['sys'], opts, pad=True, p_rf=0.3, p_g=0.4, p_adc=0.3)
+            evs = [tg.build_event(e, opts, opts) for e in b['events']]
+            if numbers == 'add':
+                used.add_block(*evs)
+            else:
+                used.set_block(3 * k + 2 + (nfile if k % 2 else 0), *evs)
+        warm_up(used, [r.choice(WARM), 'get_block'])
+        used.read(fn)
+    label = 'reused-object-read'
+    if not totals_agree(used, label, fails):
+        return fails
+    totals_agree(fresh, 'fresh-read', fails)
+    if list(used.block_events) != list(fresh.block_events):
+        fails.append((label + '/block-ids', {'used': list(used.block_events)[:12], 'fresh': list(fresh.block_events)[:12]}))
+        return fails
+    if dict(used.block_durations) != dict(fresh.block_durations):
+        fails.append((label + '/block_durations', {'used': list(used.block_durations.items())[:6], 'fresh': list(fresh.block_durations.items())[:6]}))
+        return fails
+    try:
+        with warnings.catch_warnings():
+            warnings.simplefilter('ignore')
+            wu, eu, ru, au, _ = used.waveforms_and_times()
+            wf, ef, rf_, af, _ = fresh.waveforms_and_times()
+            same = np.array_equal(au, af) and np.array_equal(eu, ef) and np.array_equal(ru, rf_) and \
+                all(np.array_equal(a, b) for a, b in zip(wu, wf))
+            if not same:
+                fails.append((label + '/time-axes', {'adc_equal': bool(np.array_equal(au, af))}))
+            T = float(sum(fresh.block_durations.values()))
+            if T > 0:
+                first = float(next(iter(fresh.block_durations.values())))
+                for a, b in ([0.0, T * r.uniform(0.2, 1.0)], [first * 0.5, T], [T * 0.4, T * 0.9]):
+                    au2, _ = used.adc_times(time_range=[a, b])
+                    af2, _ = fresh.adc_times(time_range=[a, b])
+                    wu2 = used.waveforms(time_range=[a, b])
+                    wf2 = fresh.waveforms(time_range=[a, b])
+                    if not (np.array_equal(au2, af2) and all(np.array_equal(x, y) for x, y in zip(wu2, wf2))):
+                        fails.append((label + '/time_range', {'range': [a, b], 'n_used': len(au2), 'n_fresh': len(af2)}))
+                        break
+                    # the windowed ADC times are a part of the un-windowed ones of the same object
+                    if len(au2) and not set(np.round(au2, 12)).issubset(set(np.round(au, 12))):
+                        fails.append((label + '/time_range-vs-full', {'range': [a, b]}))
+                        break
+            if len(fresh.block_events) <= 5 and r.random() < 0.3:
+                ku = used.calculate_kspace()
+                kf = fresh.calculate_kspace()
+                if not (np.array_equal(ku[4], kf[4]) and np.array_equal(ku[1].shape, kf[1].shape)):
+                    fails.append((label + '/calculate_kspace', {'t_adc_equal': bool(np.array_equal(ku[4], kf[4])),
+                                                                'k_traj_shapes': [list(ku[1].shape), list(kf[1].shape)]}))
+            fu, ff = os.path.join(dname, 'u.seq'), os.path.join(dname, 'f.seq')
+            used.write(fu, create_signature=False)
+            fresh.write(ff, create_signature=False)
+        tu, _, cu = file_facts(fu)
+        tf, _, cf = file_facts(ff)
+        if tu != tf or cu != cf:
+            fails.append((label + '/rewritten-file', {'TotalDuration': [str(tu), str(tf)], 'blocks_equal': cu == cf}))
+        elif open(fu).read() != open(ff).read():
+            fails.append((label + '/rewritten-file-text', {}))
+    except Exception as e:  # noqa: BLE001
+        fails.append((label + '/raises', {'exception': repr(e)}))
+    ctx.count('file.reused_object_read')
+    return fails
 
 
 def ctx_rng(case):
